@@ -47,21 +47,36 @@ func (c vxC18CfgCase) String() string {
 	return fmt.Sprintf("config[%s] file %v, %s", c.Config, c.A, how)
 }
 
-var vxC18Variants = []string{"none", "cmd-sensor", "cmd-fan", "both"}
+// "unused-cmd-sensor": the only cmd entry is a sensor that no curve references (the daemon still polls it);
+// "second-cmd-sensor" / "second-cmd-fan": the cmd entry is not the first entry of its list
+var vxC18Variants = []string{"none", "cmd-sensor", "cmd-fan", "both", "unused-cmd-sensor", "second-cmd-sensor", "second-cmd-fan"}
 
 func vxC18Yaml(variant, dir string) string {
-	sensor := "    file:\n      path: " + filepath.Join(dir, "temp_input") + "\n"
-	if variant == "cmd-sensor" || variant == "both" {
-		sensor = "    cmd:\n      exec: /bin/echo\n      args: [\"42000\"]\n"
+	fileSensor := "    file:\n      path: " + filepath.Join(dir, "temp_input") + "\n"
+	cmdSensor := "    cmd:\n      exec: /bin/echo\n      args: [\"42000\"]\n"
+	fileFan := "    file:\n      path: " + filepath.Join(dir, "pwm") + "\n      rpmPath: " + filepath.Join(dir, "rpm") + "\n"
+	cmdFan := "    cmd:\n      setPwm:\n        exec: /bin/true\n        args: [\"%pwm%\"]\n      getPwm:\n        exec: /bin/echo\n        args: [\"128\"]\n"
+	sensors := "  - id: s1\n" + fileSensor
+	fans := "  - id: f1\n    curve: c1\n    neverStop: false\n" + fileFan
+	curves := "  - id: c1\n    linear:\n      sensor: s1\n      min: 40\n      max: 80\n"
+	switch variant {
+	case "cmd-sensor":
+		sensors = "  - id: s1\n" + cmdSensor
+	case "cmd-fan":
+		fans = "  - id: f1\n    curve: c1\n    neverStop: false\n" + cmdFan
+	case "both":
+		sensors = "  - id: s1\n" + cmdSensor
+		fans = "  - id: f1\n    curve: c1\n    neverStop: false\n" + cmdFan
+	case "unused-cmd-sensor":
+		sensors += "  - id: s2\n" + cmdSensor
+	case "second-cmd-sensor":
+		sensors += "  - id: s2\n" + cmdSensor
+		curves += "  - id: c2\n    linear:\n      sensor: s2\n      min: 40\n      max: 80\n"
+		fans += "  - id: f2\n    curve: c2\n    neverStop: false\n    file:\n      path: " + filepath.Join(dir, "pwm2") + "\n"
+	case "second-cmd-fan":
+		fans += "  - id: f2\n    curve: c1\n    neverStop: false\n" + cmdFan
 	}
-	fan := "    file:\n      path: " + filepath.Join(dir, "pwm") + "\n      rpmPath: " + filepath.Join(dir, "rpm") + "\n"
-	if variant == "cmd-fan" || variant == "both" {
-		fan = "    cmd:\n      setPwm:\n        exec: /bin/true\n        args: [\"%pwm%\"]\n      getPwm:\n        exec: /bin/echo\n        args: [\"128\"]\n"
-	}
-	return "dbPath: " + filepath.Join(dir, "fan2go.db") + "\n" +
-		"sensors:\n  - id: s1\n" + sensor +
-		"curves:\n  - id: c1\n    linear:\n      sensor: s1\n      min: 40\n      max: 80\n" +
-		"fans:\n  - id: f1\n    curve: c1\n    neverStop: false\n" + fan
+	return "dbPath: " + filepath.Join(dir, "fan2go.db") + "\n" + "sensors:\n" + sensors + "curves:\n" + curves + "fans:\n" + fans
 }
 
 // vxC18Load writes the variant's YAML to path and loads it the way fan2go does at start-up.
@@ -75,13 +90,21 @@ func vxC18Load(variant, dir, path string) error {
 		return fmt.Errorf("readInConfig: %v", err)
 	}
 	LoadConfig()
-	wantSensor := variant == "cmd-sensor" || variant == "both"
-	wantFan := variant == "cmd-fan" || variant == "both"
-	if len(CurrentConfig.Sensors) != 1 || len(CurrentConfig.Fans) != 1 || len(CurrentConfig.Curves) != 1 {
-		return fmt.Errorf("variant %s: loaded %d sensors, %d curves, %d fans", variant, len(CurrentConfig.Sensors), len(CurrentConfig.Curves), len(CurrentConfig.Fans))
+	nCmdSensors, nCmdFans := 0, 0
+	for _, x := range CurrentConfig.Sensors {
+		if x.Cmd != nil {
+			nCmdSensors++
+		}
 	}
-	if (CurrentConfig.Sensors[0].Cmd != nil) != wantSensor || (CurrentConfig.Fans[0].Cmd != nil) != wantFan {
-		return fmt.Errorf("variant %s: cmd sensor loaded=%v cmd fan loaded=%v", variant, CurrentConfig.Sensors[0].Cmd != nil, CurrentConfig.Fans[0].Cmd != nil)
+	for _, x := range CurrentConfig.Fans {
+		if x.Cmd != nil {
+			nCmdFans++
+		}
+	}
+	wantSensor := variant == "cmd-sensor" || variant == "both" || variant == "unused-cmd-sensor" || variant == "second-cmd-sensor"
+	wantFan := variant == "cmd-fan" || variant == "both" || variant == "second-cmd-fan"
+	if (nCmdSensors > 0) != wantSensor || (nCmdFans > 0) != wantFan || len(CurrentConfig.Sensors) == 0 || len(CurrentConfig.Fans) == 0 {
+		return fmt.Errorf("variant %s: loaded %d sensors (%d cmd), %d curves, %d fans (%d cmd)", variant, len(CurrentConfig.Sensors), nCmdSensors, len(CurrentConfig.Curves), len(CurrentConfig.Fans), nCmdFans)
 	}
 	return nil
 }
